@@ -246,6 +246,41 @@ def runtime_checks():
             if c.ith_unit != second or not torch.equal(c.enforce(net, tt), ref.enforce(net, tt)):
                 bad.append(dict(case='set_impose_on called a second time', first_unit=first, second_unit=second, unit_now=c.ith_unit,
                                 violated='the condition does not constrain the unit it was bound to last'))
+    # a forced ensemble of conditions that override enforce(): column i is sub-condition i applied to output unit i (and to no other)
+    with _w.catch_warnings():
+        _w.simplefilter('ignore')
+        subs = [DoubleEndedBVP1D(0., 1., x_min_val=1.0, x_max_val=-2.0), IVP(0., 5.0), DoubleEndedBVP1D(0., 1., x_min_val=3.0, x_max_val=4.0),
+                IBVP1D(0., 1., 0., lambda x: x * 0 + 7.0, x_min_val=lambda t: t * 0 + 7.0, x_max_val=lambda t: t * 0 + 7.0)]
+        for pick in ((0, 2), (2, 0), (0, 1, 2), (1, 2, 0)):
+            cs = [subs[i] for i in pick]
+            try:
+                ens = EnsembleCondition(*cs, force=True)
+                net = FCNN(1, len(cs), hidden_units=(3,))
+                xx = torch.tensor([[0.0], [1.0], [0.4]], requires_grad=True)
+                out = ens.enforce(net, xx)
+                raw = net(xx)
+                want = torch.cat([c.parameterize(raw[:, i:i + 1], xx) for i, c in enumerate(cs)], dim=1)
+                if tuple(out.shape) != (3, len(cs)) or not torch.allclose(out, want, rtol=0, atol=1e-12):
+                    bad.append(dict(case='forced ensemble of sub-conditions that override enforce()', sub_conditions=[type(c).__name__ for c in cs],
+                                    violated='column i is not sub-condition i applied to output unit i', got=out.detach().tolist(), want=want.detach().tolist()))
+            except Exception as e:
+                bad.append(dict(case='forced ensemble of sub-conditions that override enforce()', error=f'{type(e).__name__}: {e}'))
+        # conditions without parameters are still separate objects: binding one to a unit leaves the others alone
+        net = FCNN(1, 3, hidden_units=(3,))
+        tt = torch.rand(4, 1)
+        ncs = [NoCondition() for _ in range(3)]
+        for i, c in enumerate(ncs):
+            c.set_impose_on(2 - i)
+        raw = net(tt)
+        for i, c in enumerate(ncs):
+            got = c.enforce(net, tt)
+            if c.ith_unit != 2 - i or not torch.equal(got, raw[:, 2 - i].view(-1, 1)):
+                bad.append(dict(case='several NoCondition objects bound to different output units', index=i, bound_to=2 - i, unit_now=c.ith_unit,
+                                violated='the condition does not hand back the unit it was bound to'))
+        fresh = NoCondition()
+        if getattr(fresh, 'ith_unit', None) is not None or tuple(fresh.enforce(net, tt).shape) != (4, 3):
+            bad.append(dict(case='a new NoCondition after others were bound to units', unit_now=getattr(fresh, 'ith_unit', None),
+                            violated='a fresh condition is already bound to a unit'))
     one = lambda t: t
     for mk in (lambda: IBVP1D(0., 1., 0., one, x_min_val=one, x_max_val=one), lambda: DoubleEndedBVP1D(0., 1., x_min_val=0., x_max_val=1.)):
         c = mk()
